@@ -165,7 +165,7 @@ func cRun(h cHistory, dir string) (viol []cViolation) {
 	if h.Transport == "bridge" {
 		os.Setenv("VERIF_BRIDGE_CHILD", "1")
 		os.Setenv("VERIF_BRIDGE_CALLS", "1000000")
-		conn, err = varlink.NewBridgeWithStderr(os.Args[0]+" -test.run='^TestVerifBridgeChild$'", ioutil.Discard)
+		conn, err = varlink.NewBridgeWithStderr("exec "+os.Args[0]+" -test.run='^TestVerifBridgeChild$'", ioutil.Discard)
 		os.Unsetenv("VERIF_BRIDGE_CHILD")
 		if err != nil {
 			fail("transport", "bridge-start-failed", "%v", err)
